@@ -18,6 +18,7 @@ func genSpec(t *rapid.T) FileSpec {
 		Alias:    rapid.Bool().Draw(t, "alias"),
 		Protolib: rapid.SampledFrom([]string{"", "", "custom", "gogo"}).Draw(t, "protolib"),
 		JSON:     rapid.Bool().Draw(t, "json"),
+		OtherPkg: rapid.SampledFrom([]string{"", "", "context", "drpc"}).Draw(t, "otherpkg"),
 	}
 	// names are distinct after Go protobuf's own camel-casing by construction (no rejection)
 	methGen := rapid.Custom(func(t *rapid.T) MethodSpec {
@@ -87,6 +88,9 @@ func runSpec(f FileSpec) (r pbt.Result) {
 	}
 	if len(f.Services) >= 2 {
 		r.Label("services_2plus")
+	}
+	if f.OtherPkg != "" {
+		r.Label("imported_package_named_" + f.OtherPkg)
 	}
 	if f.Protolib != "" {
 		r.Label("protolib_" + f.Protolib)
